@@ -2,15 +2,18 @@ import StreamzVerif.Driver.Util
 import StreamzVerif.Model.MapAsyncFine
 /-! Line-protocol driver for the fine-grained `map_async` transition system (Model/MapAsyncFine.lean).
 
-  {"op":"trace","p":P,"variant":"locked"|"fastPath"|"polling","steps":[["A5"],["T"],[],["J0"],["D"],...]}
+  {"op":"trace","p":P,"variant":"locked"|"fastPath"|"polling","life":"current"|"startReplaces"|"noPredecessorWait",
+   "steps":[["A5"],["T"],[],["J0"],["D"],["X"],["S"],...]}
         one inner list per harness step; actions: "A<int>" arrive with that value, "T" tick (run the head of the
-        ready queue), "J<id>" the environment resolves the future of job <id>, "D" downDone
+        ready queue), "J<id>" the environment resolves the future of job <id>, "D" downDone, "S" start(), "X" stop()
      -> {"accepted":true,"states":[S,..one per step..]}
       | {"accepted":false,"at":i,"act":"T","states":[..prefix..]}        the action is not enabled in the model
   S = {"ran":[handles run by the T's of this step],"ready":[handles],"holder":id|null,"lockq":[[id,woken],..],
-       "queue":[ids],"worker":"-"|"s"|"g1"|"g0"|"a<id>"|"e<id>"|"f<id>","started":[ids],"outs":[ids],"fin":[ids],
+       "queue":[ids],"workers":[[stop,"s"|"p0"|"p1"|"g1"|"g0"|"a<id>"|"e<id>"|"f<id>"|"F"],..],"workTask":w|null,
+       "getters":[w,..],"aproj":"idle"|"a<id>"|"e<id>","started":[ids],"outs":[ids],"fin":[ids],
        "acked":[ids],"jobs":[[id,"c"|"cr"|"r"|"rr"|"d"],..],"waiting":[ids]}
-  handles: I<id> insFirst, L<id> insWake, P<id> insPoll, K<id> ack, w worker, F<id> jobFirst, V<id> jobWake, G gatherCb
+  handles: I<id> insFirst, L<id> insWake, P<id> insPoll, K<id> ack, w<k> worker k, C<k> waitCb k, F<id> jobFirst,
+           V<id> jobWake, G<k> gatherCb of worker k
   unknown input -> bad-op
 -/
 open Lean StreamzVerif StreamzVerif.Driver StreamzVerif.MapAsyncFine
@@ -18,6 +21,8 @@ open Lean StreamzVerif StreamzVerif.Driver StreamzVerif.MapAsyncFine
 def actOf (s : String) : Option (FAct Int) :=
   if s == "T" then some .tick
   else if s == "D" then some .downDone
+  else if s == "S" then some .start
+  else if s == "X" then some .stop
   else if s.startsWith "A" then (s.drop 1).toInt?.map .arrive
   else if s.startsWith "J" then (s.drop 1).toNat?.map .jobDone
   else none
@@ -27,14 +32,17 @@ def showH : H → String
   | .insWake j => "L" ++ toString j
   | .insPoll j => "P" ++ toString j
   | .ack j => "K" ++ toString j
-  | .worker => "w"
+  | .worker w => "w" ++ toString w
+  | .waitCb w => "C" ++ toString w
   | .jobFirst j => "F" ++ toString j
   | .jobWake j => "V" ++ toString j
-  | .gatherCb => "G"
+  | .gatherCb w => "G" ++ toString w
 
 def showW : W → String
-  | .absent => "-"
   | .starting => "s"
+  | .waitPrev false => "p0"
+  | .waitPrev true => "p1"
+  | .finished => "F"
   | .getting true => "g1"
   | .getting false => "g0"
   | .awaiting j => "a" ++ toString j
@@ -53,7 +61,11 @@ def render (ran : List H) (s : FSt Int) : Json :=
     ("ran", toJson (ran.map showH)), ("ready", toJson (s.ready.map showH)),
     ("holder", match s.holder with | some j => toJson j | none => Json.null),
     ("lockq", Json.arr (s.lockq.map (fun e => Json.arr #[toJson e.1, toJson e.2])).toArray),
-    ("queue", toJson s.queue), ("worker", Json.str (showW s.worker)), ("started", toJson s.started),
+    ("queue", toJson s.queue),
+    ("workers", Json.arr (s.workers.map (fun k => Json.arr #[toJson k.stop, Json.str (showW k.st)])).toArray),
+    ("workTask", match s.workTask with | some w => toJson w | none => Json.null), ("getters", toJson s.getters),
+    ("aproj", Json.str (match aproj s with | .idle => "idle" | .awaiting j => "a" ++ toString j | .emitting j => "e" ++ toString j)),
+    ("started", toJson s.started),
     ("outs", toJson s.outs), ("fin", toJson s.fin), ("acked", toJson s.acked),
     ("jobs", Json.arr (s.jobs.map (fun e => Json.arr #[toJson e.1, Json.str (showJ e.2)])).toArray),
     ("waiting", toJson (waitingIds s))]
@@ -63,6 +75,13 @@ def variantOf : Option String → Option Variant
   | some "locked" => some .locked
   | some "fastPath" => some .fastPath
   | some "polling" => some .polling
+  | _ => none
+
+def lifeOf : Option String → Option Life
+  | none => some .current
+  | some "current" => some .current
+  | some "startReplaces" => some .startReplaces
+  | some "noPredecessorWait" => some .noPredecessorWait
   | _ => none
 
 def applyActs (c : Cfg) (s : FSt Int) (ran : List H) : List String → Except String (FSt Int × List H)
@@ -91,9 +110,10 @@ def runTrace (c : Cfg) (steps : List (List String)) : Json :=
 def step' (st : Unit) (j : Json) : Unit × Json :=
   match getStr j "op" with
   | some "trace" =>
-    match getNat j "p", variantOf (getStr j "variant"), (j.getObjValAs? (List (List String)) "steps").toOption with
-    | some p, some v, some steps => (st, runTrace ⟨p, v⟩ steps)
-    | _, _, _ => (st, badOp "trace")
+    match getNat j "p", variantOf (getStr j "variant"), lifeOf (getStr j "life"),
+          (j.getObjValAs? (List (List String)) "steps").toOption with
+    | some p, some v, some l, some steps => (st, runTrace { p := p, variant := v, life := l } steps)
+    | _, _, _, _ => (st, badOp "trace")
   | _ => (st, badOp "op")
 
 def main : IO Unit := runLoop step' ()
